@@ -67,8 +67,10 @@ func functionValueType(returnTypes []ValueType) ValueType {
 
 	if len(returnTypes) > 1 {
 		valueType = NewValueType(DATA_TYPE_MULTIPLE, false)
-	} else {
+	} else if len(returnTypes) == 1 {
 		valueType = returnTypes[0]
+	} else {
+		valueType = NewValueType(DATA_TYPE_UNKNOWN, false) // Function doesn't return a value.
 	}
 	return valueType
 }
